@@ -116,6 +116,8 @@ RegVerbs == {"CAP", "PASS", "NICK", "USER", "AUTHENTICATE", "QUIT"}
 WelcomeCodes == {"001", "002", "003", "004", "005", "375", "372", "376", "221",
                  "251", "252", "253", "254", "255", "265", "266"}
 
+(* the numerics through which LIST / NAMES / WHO / WHOIS show channels and users *)
+ViewCodes == {"321", "322", "323", "353", "366", "352", "315", "307", "311", "312", "313", "317", "318", "319", "378", "379", "671", "301"}
 IsOut(g) == g.t = "out"
 IsSt(g) == g.t = "st"
 Extra(g) == g.t = "out" /\ g.d \in {"+s", "+o"}
@@ -162,7 +164,7 @@ Owns(P, x, g) ==
                       \/ (x.authed /\ ~x.perr /\ v = "MODE" /\ ~x.modeChan /\
                             ((IsSt(g) /\ g.a = "users" /\ g.b = "modes") \/ (IsSt(g) /\ g.a \in {"wallops", "operCnt"}) \/ IsOut(g)))
       [] P = "C12" -> x.authed /\ ~x.perr /\
-                      ((v \in {"LIST", "NAMES", "WHO", "WHOIS"} /\ x.hidden /\ IsOut(g))
+                      ((v \in {"LIST", "NAMES", "WHO", "WHOIS"} /\ x.hidden /\ IsOut(g) /\ g.b \in ViewCodes)
                        \/ (v \in {"PRIVMSG", "NOTICE"} /\ x.secretTarget /\ IsOut(g) /\ g.a = "r"))
       [] P = "C13" -> \/ (x.perr /\ (IsSt(g) \/ IsOut(g)))
                       \/ (IsOut(g) /\ g.b \in {"421", "461", "472", "501", "696", "417", "UNPARSABLE"})
